@@ -1181,3 +1181,152 @@ Proof.
   split; [intros; apply Permutation_refl|]. split; [exact H5|]. split; [lia|]. split; [lia|]. split; [lia|].
   split; [exact H9|]. split; [exact H10|exact H11].
 Qed.
+
+
+(* ================================================================ the judge is complete for ordered answers *)
+
+Section OrderComplete.
+  Variable keys : list (nat * bool * bool).
+  Variable ty : nat -> kind.
+  Let le (a b : Sql.row) : Prop := keys_le keys a b = true.
+  Let wf := row_typed ty keys.
+  Let keq := keys_eq keys.
+
+  Lemma keq_refl a : keq a a.
+  Proof. unfold keq, keys_eq. apply keys_cmp_refl. Qed.
+
+  Lemma keq_sym a b : keq a b -> keq b a.
+  Proof. unfold keq, keys_eq. intros H. rewrite keys_cmp_antisym, H. reflexivity. Qed.
+
+  Lemma keq_trans a b c : wf a -> wf b -> wf c -> keq a b -> keq b c -> keq a c.
+  Proof.
+    unfold keq, keys_eq. intros Ha Hb Hc H1 H2. generalize (keys_cmp_ctrip ty keys a b c Ha Hb Hc).
+    rewrite H1, H2. destruct (keys_cmp keys a c); cbn; congruence.
+  Qed.
+
+  Lemma le_le_keq a b : le a b -> le b a -> keq a b.
+  Proof.
+    unfold le, keq, keys_eq, keys_le. intros H1 H2. rewrite (keys_cmp_antisym keys a b) in H2.
+    destruct (keys_cmp keys a b); cbn in *; try reflexivity; discriminate.
+  Qed.
+
+  Lemma le_refl a : le a a.
+  Proof. unfold le. apply keys_le_refl. Qed.
+
+  (* z, equivalent to x, in front; x moved behind a block of rows all equivalent to x *)
+  Lemma keq_shift x b2 : forall b1 z a',
+    wf x -> wf z -> Forall wf a' -> Forall (fun e => keq e x /\ wf e) b1 -> Forall wf b2 ->
+    keq z x -> Forall2 keq a' (b1 ++ b2) -> Forall2 keq (z :: a') (b1 ++ x :: b2).
+  Proof.
+    induction b1 as [|e b1 IH]; intros z a' Hx Hz Ha Hb1 Hb2 Hzx H.
+    - cbn [app] in *. constructor; [exact Hzx|exact H].
+    - cbn [app] in *. inversion H as [|a0 e' a'' rest Ha0 Hrest]; subst.
+      inversion Hb1 as [|e' b1' [Hex Hewf] Hb1']; subst. inversion Ha as [|a0' a''' Ha0wf Ha'']; subst.
+      constructor.
+      + apply (keq_trans z x e Hz Hx Hewf Hzx (keq_sym _ _ Hex)).
+      + apply IH; try assumption. apply (keq_trans a0 e x Ha0wf Hewf Hx Ha0 Hex).
+  Qed.
+
+  Lemma sorted_perm_keq : forall a b, Forall wf a -> Permutation a b ->
+    StronglySorted le a -> StronglySorted le b -> Forall2 keq a b.
+  Proof.
+    induction a as [|x a' IH]; intros b Hwf HP Sa Sb.
+    - apply Permutation_nil in HP. subst. constructor.
+    - assert (Hin : In x b) by (apply (Permutation_in x HP); left; reflexivity).
+      destruct (in_split x b Hin) as [b1 [b2 ->]].
+      pose proof (Permutation_cons_app_inv _ _ HP) as HP'.
+      inversion Hwf as [|x' a'' Hx Hwa]; subst. inversion Sa as [|x' a'' Sa' Hxa]; subst.
+      assert (Hwb : Forall wf (b1 ++ x :: b2)) by (eapply Permutation_Forall; [exact HP|exact Hwf]).
+      apply Forall_app in Hwb. destruct Hwb as [Hwb1 Hwb2]. inversion Hwb2 as [|x' b2' _ Hwb2']; subst.
+      destruct (SSorted_app_inv keys b1 (x :: b2) Sb) as (S1 & S2 & H12).
+      inversion S2 as [|x' b2' S2' Hxb2]; subst.
+      assert (S12 : StronglySorted le (b1 ++ b2)).
+      { apply (SSorted_app keys); [exact S1|exact S2'|]. intros u v Hu Hv. apply H12; [exact Hu|right; exact Hv]. }
+      pose proof (IH (b1 ++ b2) Hwa HP' Sa' S12) as HF.
+      apply (keq_shift x b2 b1 x a' Hx Hx Hwa); [|exact Hwb2'|apply keq_refl|exact HF].
+      apply Forall_forall. intros e He. rewrite Forall_forall in Hwb1. split; [|apply Hwb1, He].
+      apply le_le_keq.
+      + apply H12; [exact He|left; reflexivity].
+      + assert (Hea : In e (x :: a')).
+        { apply (Permutation_in e (Permutation_sym HP)). apply in_or_app. left. exact He. }
+        destruct Hea as [<-|Hea]; [apply le_refl|]. rewrite Forall_forall in Hxa. apply Hxa, Hea.
+  Qed.
+
+  Lemma Forall2_same_keys a : forall b, Forall2 keq a b -> same_keys keys a b = true.
+  Proof.
+    induction a as [|x a IH]; intros b H; inversion H as [|x' y a' b' Hxy Hab]; subst; [reflexivity|].
+    cbn [same_keys]. unfold keq, keys_eq in Hxy. rewrite Hxy. apply IH, Hab.
+  Qed.
+
+  Lemma Forall2_firstn {A B} (R : A -> B -> Prop) n : forall l l', Forall2 R l l' -> Forall2 R (firstn n l) (firstn n l').
+  Proof.
+    induction n as [|n IH]; intros l l' H; [constructor|]. inversion H; subst; [constructor|].
+    cbn [firstn]. constructor; [assumption|apply IH; assumption].
+  Qed.
+  Lemma Forall2_skipn {A B} (R : A -> B -> Prop) n : forall l l', Forall2 R l l' -> Forall2 R (skipn n l) (skipn n l').
+  Proof.
+    induction n as [|n IH]; intros l l' H; [exact H|]. inversion H; subst; [constructor|].
+    cbn [skipn]. apply IH; assumption.
+  Qed.
+
+  Theorem order_check_complete lim off inp p :
+    Forall wf inp -> Permutation p inp -> sorted_by keys p = true ->
+    order_check keys lim off inp (slice_rows off lim p) = true.
+  Proof.
+    intros Hwf HP HS. unfold order_check.
+    assert (Hwp : Forall wf p) by (eapply Permutation_Forall; [apply Permutation_sym; exact HP|exact Hwf]).
+    pose proof (SqlJudgeProofs.sort_by_perm keys inp) as Hsp. pose proof (sort_by_sorted keys inp) as Hss.
+    assert (Hws : Forall wf (sort_by keys inp)) by (eapply Permutation_Forall; [apply Permutation_sym; exact Hsp|exact Hwf]).
+    assert (HF : Forall2 keq (sort_by keys inp) p).
+    { apply sorted_perm_keq; [exact Hws| |apply (Sorted_StronglySorted_typed keys ty); [exact Hws|apply sorted_by_Sorted; exact Hss]
+                                         |apply (Sorted_StronglySorted_typed keys ty); [exact Hwp|apply sorted_by_Sorted; exact HS]].
+      eapply Permutation_trans; [exact Hsp|apply Permutation_sym; exact HP]. }
+    pose proof (Permutation_length HP) as Hl.
+    apply andb_true_intro. split; [apply andb_true_intro; split; [apply andb_true_intro; split|]|].
+    - destruct lim as [n|]; unfold slice_rows.
+      + apply (sub_bagb_perm_prefix _ inp (skipn n (skipn off p) ++ firstn off p)).
+        rewrite app_assoc, firstn_skipn.
+        eapply perm_trans; [apply Permutation_sym, HP|].
+        rewrite <- (firstn_skipn off p) at 1. apply Permutation_app_comm.
+      + apply (sub_bagb_perm_prefix _ inp (firstn off p)).
+        eapply perm_trans; [apply Permutation_sym, HP|].
+        rewrite <- (firstn_skipn off p) at 1. apply Permutation_app_comm.
+    - destruct lim as [n|]; unfold slice_rows;
+        [apply sorted_by_firstn, sorted_by_skipn, HS|apply sorted_by_skipn, HS].
+    - apply Forall2_same_keys. destruct lim as [n|]; unfold slice_rows.
+      + apply Forall2_firstn, Forall2_skipn, HF.
+      + apply Forall2_skipn, HF.
+    - destruct lim as [n|]; [reflexivity|]. unfold slice_rows. rewrite skipn_length, Hl. apply Nat.eqb_refl.
+  Qed.
+End OrderComplete.
+
+Section BundledJudge.
+  Variables (deal : list nat -> nat -> list row -> list (list (list row)))
+            (batching : list nat -> list row -> list (list row))
+            (perm_b : list nat -> list bptr -> list bptr) (perm_l : list nat -> list lptr -> list lptr)
+            (hash : list value -> N) (kbits : N) (Pn : nat) (hasha : row -> N) (pout capacity chunk : nat)
+            (tree_of : list nat -> list (list srow) -> mtree) (lsched : list nat -> list nat)
+            (usched : list nat -> nat -> list uevent).
+  Hypothesis HO : oracle_ok deal batching perm_b perm_l hash Pn pout chunk tree_of lsched.
+  Notation exec := (exec_pplan deal batching perm_b perm_l hash kbits Pn hasha pout capacity chunk tree_of lsched usched).
+
+  (* ORDER BY [LIMIT [OFFSET]] at the top, key columns of one kind each: the judge accepts the physical answer *)
+  Theorem end_to_end_ordered_judge : forall ty sch d q' keys lim off pth got inp inp',
+    db_arity_ok sch d = true -> joins_wf sch q' = true -> no_limit (plan_of q') = true ->
+    eval_query d [] q' = Ok inp -> eval_lplan d [] (plan_of q') = Ok inp' ->
+    Forall (row_typed ty keys) inp ->
+    exec pth d [] (phys_of (plan_of (QOrderLimit q' keys lim off))) = Ok got ->
+    check_answer d (QOrderLimit q' keys lim off) got = VOk.
+  Proof.
+    intros ty sch d q' keys lim off pth got inp inp' Hd Hq Hn Hs Hl Hty Hp.
+    destruct (end_to_end_ordered_b deal batching perm_b perm_l hash kbits Pn hasha pout capacity chunk tree_of lsched usched HO
+                sch d q' keys lim off pth got inp inp' Hd Hq Hn Hs Hl Hp) as [p [HP [HS ->]]].
+    rewrite check_answer_ordered_unfold, Hs.
+    rewrite (order_check_complete keys ty lim off inp p Hty HP HS). reflexivity.
+  Qed.
+End BundledJudge.
+
+(* the ordered example satisfies the typing hypothesis *)
+Example ex_q1_typed :
+  Forall (row_typed (fun _ => KdInt) [(0, true, true)]) [[VInt 1; VInt 10]; [VInt 2; VInt 25]].
+Proof. repeat constructor. Qed.
